@@ -124,6 +124,19 @@ def run(ctx):
             idefs = [e for e in sc.defs().get(ivar.did, []) if e[0] in ("init", "assign")]
             if not idefs or any(strip(e[2]).cv != 0 for e in idefs):
                 bad = bad or "the slot loop does not start at 0"
+        # every slot is visited: nothing leaves the slot loop except its own bound test
+        if cond is not None:
+            loop = cond.parent
+            while loop is not None and loop.k != "ForStmt":
+                loop = loop.parent
+            for n in (loop.walk() if loop is not None else []):
+                if n.k in ("BreakStmt", "ReturnStmt", "GotoStmt"):
+                    enc = n.parent
+                    while enc is not None and enc.k not in ("ForStmt", "WhileStmt", "DoStmt", "SwitchStmt"):
+                        enc = enc.parent
+                    if n.k != "BreakStmt" or enc is loop:
+                        bad = bad or ("the slot loop is left early (`%s` at %s): the remaining slots of the record are not collected, a hazard published "
+                                      "there is invisible to the scan" % (n.k.replace("Stmt", "").lower(), n.loc))
         pst = [s for s in sc.stores() if strip(s.target).k == "ArraySubscriptExpr" and is_field(sc.key(strip(s.target).kids[0], True), R, "plist")]
         if len(pst) != 1:
             bad = bad or "plist store not found"
